@@ -1108,8 +1108,32 @@ fn unhex(h: &str) -> String {
     String::from_utf8(b).unwrap()
 }
 
+/// deeply nested constructs (the recursive-descent productions recurse once per level)
+fn deep_forms(n: usize) -> Vec<String> {
+    vec![
+        format!("package p is constant c : integer := {}1{}; end;", "(".repeat(n), ")".repeat(n)),
+        format!("package p is constant c : integer := {}", "(".repeat(n)),
+        format!("package body p is procedure q is begin {} end;", "if a then ".repeat(n)),
+        format!("architecture a of e is begin {}", "b : block begin ".repeat(n)),
+        format!("package p is constant c : boolean := {}x; end;", "not ".repeat(n)),
+        format!("package p is constant c : integer := a{}", "(b".repeat(n)),
+        format!("architecture a of e is begin {}", "g : if c generate ".repeat(n)),
+        format!("package body p is procedure q is begin {}", "loop ".repeat(n)),
+        format!("package p is constant c : integer := {}1; end;", "- ".repeat(n)),
+        format!("package p is constant c : t := {}0{}; end;", "(others => ".repeat(n), ")".repeat(n)),
+        format!("package p is {}", "package q is ".repeat(n)),
+        format!("architecture a of e is begin {} end;", "case x generate when 1 => ".repeat(n)),
+        format!("package body p is procedure q is begin {}", "case x is when 1 => ".repeat(n)),
+        format!("package p is type t is {}", "record a : ".repeat(n)),
+    ]
+}
+
 fn gen(seed: u64, tier: &str, out_path: &str) {
-    let scale = if tier == "thorough" { 10 } else { 1 };
+    // tier = quick | thorough, optionally followed by `+deep` (also the nesting depths at which the
+    // parser is known to overflow its stack; only passed when that finding is a listed known finding)
+    let with_deep_crash = tier.ends_with("+deep");
+    let tier = tier.trim_end_matches("+deep");
+    let scale = if tier == "thorough" { 30 } else { 1 };
     let mut r = Rng::new(seed ^ 0xC02);
     let mut f = std::io::BufWriter::new(std::fs::File::create(out_path).unwrap());
     let mut emit = |class: &str, text: &str| {
@@ -1322,6 +1346,48 @@ fn gen(seed: u64, tier: &str, out_path: &str) {
             }
         }
     }
+    // 11. exhaustive: every sequence of up to 3 (thorough: 4) tokens over a 14-word alphabet
+    {
+        let alpha = ["entity", "e", "is", "end", ";", ":", "package", "body", "(", ")", "library", "use", ".", "architecture"];
+        let maxlen = if scale > 1 { 4 } else { 3 };
+        let mut idx: Vec<usize> = Vec::new();
+        loop {
+            // next sequence in length-lexicographic order
+            let mut k = idx.len();
+            loop {
+                if k == 0 {
+                    idx = vec![0; idx.len() + 1];
+                    break;
+                }
+                k -= 1;
+                if idx[k] + 1 < alpha.len() {
+                    idx[k] += 1;
+                    for j in k + 1..idx.len() {
+                        idx[j] = 0;
+                    }
+                    break;
+                }
+            }
+            if idx.len() > maxlen {
+                break;
+            }
+            let text: Vec<&str> = idx.iter().map(|i| alpha[*i]).collect();
+            emit("exhaustive", &text.join(" "));
+        }
+    }
+    // 10. nesting depth
+    for n in [50usize, 200, 600] {
+        for t in deep_forms(n) {
+            emit("deep", &t);
+        }
+    }
+    if with_deep_crash {
+        for n in [5000usize, 20000] {
+            for t in deep_forms(n) {
+                emit("deep-crash", &t);
+            }
+        }
+    }
     emit("nonlatin", "x\u{20ac}");
     emit("nonlatin", "entity e is end; -- \u{1F600}\n\u{20ac} entity");
 }
@@ -1331,12 +1397,17 @@ fn gen(seed: u64, tier: &str, out_path: &str) {
 // ---------------------------------------------------------------------------------------------
 fn work(cases: &str, out_path: &str, start: usize, end: usize) {
     let parser = VHDLParser::new(VHDLStandard::VHDL2008);
-    let text = std::fs::read_to_string(cases).unwrap();
+    use std::io::BufRead;
+    let reader = std::io::BufReader::with_capacity(1 << 20, std::fs::File::open(cases).unwrap());
     let mut out = std::fs::OpenOptions::new().create(true).append(true).open(out_path).unwrap();
-    for (i, line) in text.lines().enumerate() {
-        if i < start || i >= end {
+    for (i, line) in reader.lines().enumerate() {
+        if i >= end {
+            break;
+        }
+        if i < start {
             continue;
         }
+        let line = line.unwrap();
         let mut it = line.splitn(2, ' ');
         let class = it.next().unwrap_or("");
         let h = it.next().unwrap_or("");
